@@ -105,7 +105,11 @@ impl Evaluator {
   }
 
   pub fn gen<R: rand::Rng>(&self, rng: &mut R) -> Share {
-    let rand = Fp::random(rng);
+    // A share at x = 0 would be the secret itself.
+    let mut rand = Fp::random(&mut *rng);
+    while bool::from(rand.is_zero()) {
+      rand = Fp::random(&mut *rng);
+    }
     self.evaluate(rand)
   }
 }
